@@ -90,3 +90,16 @@ M("term-memo-off-exponential", "schema_loader.go",
 M("term-items-ignores-cycle", "expander.go",
   "		t, err := expandSchema(*target.Items.Schema, parentRefs, resolver, basePath)",
   "		t, err := expandSchema(*target.Items.Schema, parentRefs[:0], resolver, basePath)", ["C04"])
+
+# ---- C01 / codec -------------------------------------------------------------
+M("codec-collectionformat-tag", "items.go", '`json:"collectionFormat,omitempty"`', '`json:"collectionformat2,omitempty"`', ["C01"])
+M("codec-parameter-drops-extensions", "parameter.go",
+  "	return swag.ConcatJSON(b3, b1, b2, b4, b5), nil", "	return swag.ConcatJSON(b3, b1, b2, b5), nil", ["C01"])
+M("codec-schema-drops-extraprops", "schema.go",
+  "	if s.ExtraProps != nil {\n		jj, err := json.Marshal(s.ExtraProps)", "	if s.ExtraProps != nil && false {\n		jj, err := json.Marshal(s.ExtraProps)", ["C01"])
+M("codec-minlength-zero-dropped", "validations.go",
+  "	MinLength        *int64        `json:\"minLength,omitempty\"`", "	MinLength        *int64        `json:\"minLength,omitempty\"`\n	_ int", ["C01"])
+M("codec-header-revert-d1", "header.go", "	return swag.ConcatJSON(b1, b2, b3, b4), nil", "	return swag.ConcatJSON(b1, b2, b3), nil", ["C01"])
+M("codec-responses-drop-default-ext", "responses.go", "	if res.Default != nil {", "	if res.Default != nil && len(res.StatusCodeResponses) == 0 {", ["C01"])
+M("codec-secscheme-tokenurl", "security_scheme.go", '`json:"tokenUrl,omitempty"`', '`json:"tokenURL,omitempty"`', ["C01"])
+M("codec-pathitem-head-as-options", "path_item.go", '`json:"head,omitempty"`', '`json:"head2,omitempty"`', ["C01"])
